@@ -33,6 +33,16 @@ def pool() -> list[str]:
 
 # statement forms whose implementation keeps state across tokens (C13/C14 anchors)
 SPECIAL = [
+    # statements that read the source-line table or carry layout the tokenizer handles specially
+    "y = f'{x=}'\n",
+    "print(f'{a + b = }', f'''{c =\n}''')\n",
+    "\\\nx = 1\n",
+    "def f():\n    \\\n    return 1\n",
+    "x = 1 + \\\n    2\n",
+    "# c\nx = 1  # t\n",
+    "x = [1,\n\n  # c\n  2]\n",
+    "\fx = 1\n",
+    "if a:\n\tb\n",
     "'c'\n",
     "p'a' pf'b{c}'\n",
     "pf'a{b}' 'c'\n",
@@ -59,7 +69,7 @@ REPRESENTATIVE = [
     "y = f'{a!r:>{w}} b'\n", "$(ls -l)\n", "f!(a, b)\n", "with! ctx as c:\n    raw text here\n    more $ lines\n", "p = p'/tmp'\n",
     "q = pf'/tmp/{a}'\n", "range?\n", "x = $(echo! a 'b')\n", "'c'\n",
 ]
-STATEFUL = ("!(", "![", "with!", "p'", 'p"', "pf", "f'", 'f"', "!)", "!]", "'''", "`")
+STATEFUL = ("!(", "![", "with!", "p'", 'p"', "pf", "f'", 'f"', "!)", "!]", "'''", "`", "\\\n", "\f", "# c")
 
 
 def units(tier: str) -> list[tuple]:
